@@ -41,6 +41,10 @@ pub struct CCfg {
     /// the consumer drops the body (client gone) after this many polls instead of going on
     #[serde(default)]
     pub drop_after_polls: Option<u8>,
+    /// the writer (at the end of the program) and the body (`drop_after_polls`) are dropped while
+    /// their threads unwind from a panic
+    #[serde(default)]
+    pub unwinding_drops: bool,
 }
 
 #[derive(Clone, Debug, Serialize, Deserialize)]
@@ -482,7 +486,8 @@ fn producer(sched: Arc<Sched>, mut w: crate::props::stream::SWriter, case: Sched
         }
         st.ev("P drop".into());
     }
-    if let Err(m) = crate::panics::guard(move || drop(w)) {
+    let unwinding = case.cfg.unwinding_drops;
+    if let Err(m) = crate::panics::guard(move || if unwinding { crate::props::stream::drop_while_unwinding(w) } else { drop(w) }) {
         sched.m.lock().unwrap().violate("panic:producer", format!("dropping the writer panicked: {m}"));
     }
     uninstall();
@@ -531,7 +536,8 @@ fn consumer(sched: Arc<Sched>, body: SBody, case: SchedCase, out: Arc<Mutex<Trac
                 // The client goes away: drop the body here, under the scheduler.
                 sched.m.lock().unwrap().ev("C drops the body".into());
                 let b = std::mem::replace(&mut body, Box::pin(build(None, 1).1));
-                let _ = crate::panics::guard(move || drop(b));
+                let unwinding = case.cfg.unwinding_drops;
+                let _ = crate::panics::guard(move || if unwinding { crate::props::stream::drop_while_unwinding(b) } else { drop(b) });
                 {
                     let mut st = sched.m.lock().unwrap();
                     st.body_dropped = true;
@@ -944,6 +950,14 @@ pub fn programs(max_len: usize, with_abort: bool) -> Vec<Vec<POp>> {
 }
 
 pub fn configs() -> Vec<CCfg> {
+    let mut v = configs_plain();
+    // the same consumer (same waker, no spurious polls) with the drops happening during an unwind
+    v.push(CCfg { fresh_waker: false, spurious: 0, sample: false, extra_polls: 1, drop_after_polls: None, unwinding_drops: true });
+    v.push(CCfg { fresh_waker: true, spurious: 0, sample: false, extra_polls: 1, drop_after_polls: None, unwinding_drops: true });
+    v
+}
+
+fn configs_plain() -> Vec<CCfg> {
     let mut v = Vec::new();
     for fresh_waker in [false, true] {
         for spurious in [0u8, 2] {
@@ -954,6 +968,7 @@ pub fn configs() -> Vec<CCfg> {
                     sample,
                     extra_polls: 1,
                     drop_after_polls: None,
+                    unwinding_drops: false,
                 });
             }
         }
@@ -998,6 +1013,7 @@ fn random_strategy(with_abort: bool) -> BoxedStrategy<SchedCase> {
                     sample,
                     extra_polls,
                     drop_after_polls,
+                    unwinding_drops: dropsel % 3 == 1,
                 },
                 choices,
             }
@@ -1008,7 +1024,7 @@ fn random_strategy(with_abort: bool) -> BoxedStrategy<SchedCase> {
 pub const META_C10: Meta = Meta {
     id: "C10",
     level: "exploration",
-    rule: "Schedule enumeration on the real chunker code through hook H1: producer programs of up to 4 operations (thorough 5, and all 6-operation programs; thorough also chunk size 3 with writes of 1, 2, 4 and 7 bytes) over {write(1), write(2), flush, wait-until-delivered} + drop (random programs also write_all of up to 300 bytes, i.e. hundreds of chunks), chunk size 2 (identity) and of up to 3 operations with the gzip writer (chunk size 6; every operation is several chunker writes), against a consumer that parks on Pending, with same/fresh waker per poll (wakes to superseded wakers are ignored), 0 or 2 spurious polls, with/without is_end_stream/size_hint sampling; every schedule with <= 2 preemptions (thorough 3) is executed by stateless DFS (two real threads, exactly one runs, hand-over at lock acquisitions, wake() and operation boundaries); plus proptest over programs of <= 6 operations, chunk sizes {1,2,3,5,8}, writes of 1-17 bytes and random choice vectors (unbounded preemptions). Also programs that queue 1 MiB and more before the consumer's first poll (chunk 16-64 KiB). Oracle (history invariants): no quiescent state with the consumer parked and un-woken while data, end or abort is undelivered; everything flushed is received in order before a clean end; bounded polls after the writer is gone. Non-trivial = schedule in which the consumer parked at least once or an actor was preempted; distinct by (program, config, choice vector).",
+    rule: "Schedule enumeration on the real chunker code through hook H1: producer programs of up to 4 operations (thorough 5, and all 6-operation programs; thorough also chunk size 3 with writes of 1, 2, 4 and 7 bytes) over {write(1), write(2), flush, wait-until-delivered} + drop (random programs also write_all of up to 300 bytes, i.e. hundreds of chunks), chunk size 2 (identity) and of up to 3 operations with the gzip writer (chunk size 6; every operation is several chunker writes), against a consumer that parks on Pending, with same/fresh waker per poll (wakes to superseded wakers are ignored), 0 or 2 spurious polls, with/without is_end_stream/size_hint sampling, writer / body dropped normally or while the thread unwinds from a panic; every schedule with <= 2 preemptions (thorough 3) is executed by stateless DFS (two real threads, exactly one runs, hand-over at lock acquisitions, wake() and operation boundaries); plus proptest over programs of <= 6 operations, chunk sizes {1,2,3,5,8}, writes of 1-17 bytes and random choice vectors (unbounded preemptions). Also programs that queue 1 MiB and more before the consumer's first poll (chunk 16-64 KiB). Oracle (history invariants): no quiescent state with the consumer parked and un-woken while data, end or abort is undelivered; everything flushed is received in order before a clean end; bounded polls after the writer is gone. Non-trivial = schedule in which the consumer parked at least once or an actor was preempted; distinct by (program, config, choice vector).",
     assumptions: &[
         "interleavings are at lock / wake / operation granularity: complete for this code because every shared field sits behind the one instrumented mutex",
         "no weak-memory effects (all sharing goes through std::sync::Mutex)",
@@ -1039,13 +1055,15 @@ fn run_common(cx: &Cx, c11: bool) -> Acc {
     if c11 {
         for program in programs(3, false) {
             for k in [0u8, 1, 2] {
-                units.push(SchedCase {
-                    gzip: None,
-                    chunk: 2,
-                    program: program.clone(),
-                    cfg: CCfg { fresh_waker: false, spurious: 0, sample: false, extra_polls: 0, drop_after_polls: Some(k) },
-                    choices: vec![],
-                });
+                for unwinding_drops in [false, true] {
+                    units.push(SchedCase {
+                        gzip: None,
+                        chunk: 2,
+                        program: program.clone(),
+                        cfg: CCfg { fresh_waker: false, spurious: 0, sample: false, extra_polls: 0, drop_after_polls: Some(k), unwinding_drops },
+                        choices: vec![],
+                    });
+                }
             }
         }
     }
@@ -1062,7 +1080,7 @@ fn run_common(cx: &Cx, c11: bool) -> Acc {
                 gzip: Some(1),
                 chunk: 6,
                 program: program.clone(),
-                cfg: CCfg { fresh_waker, spurious: if fresh_waker { 2 } else { 0 }, sample: false, extra_polls: 1, drop_after_polls: None },
+                cfg: CCfg { fresh_waker, spurious: if fresh_waker { 2 } else { 0 }, sample: false, extra_polls: 1, drop_after_polls: None, unwinding_drops: false },
                 choices: vec![],
             });
         }
@@ -1097,7 +1115,7 @@ fn run_common(cx: &Cx, c11: bool) -> Acc {
                         gzip: None,
                         chunk,
                         program: program.clone(),
-                        cfg: CCfg { fresh_waker, spurious: 0, sample: false, extra_polls: 1, drop_after_polls: None },
+                        cfg: CCfg { fresh_waker, spurious: 0, sample: false, extra_polls: 1, drop_after_polls: None, unwinding_drops: false },
                         choices: vec![],
                     });
                 }
@@ -1192,7 +1210,7 @@ pub fn run_for_c12(cx: &Cx) -> Acc {
                 gzip: None,
                 chunk: 2,
                 program: program.clone(),
-                cfg: CCfg { fresh_waker, spurious: 1, sample: true, extra_polls: 1, drop_after_polls: None },
+                cfg: CCfg { fresh_waker, spurious: 1, sample: true, extra_polls: 1, drop_after_polls: None, unwinding_drops: false },
                 choices: vec![],
             });
         }
@@ -1245,7 +1263,7 @@ pub fn run_for_c20(cx: &Cx) -> Acc {
                 gzip,
                 chunk,
                 program: program.clone(),
-                cfg: CCfg { fresh_waker: false, spurious: 0, sample: false, extra_polls: 3, drop_after_polls: None },
+                cfg: CCfg { fresh_waker: false, spurious: 0, sample: false, extra_polls: 3, drop_after_polls: None, unwinding_drops: false },
                 choices: vec![],
             });
         }
